@@ -6,7 +6,9 @@ package rx
 import (
 	"errors"
 	"fmt"
+	"hash/fnv"
 	"io"
+	"net"
 	"sync"
 	"time"
 
@@ -29,23 +31,23 @@ func init() {
 // ---------- trace ----------
 
 type Event struct {
-	Kind   string // "take", "term", "mark", "fallback", "match"
-	ID     string
-	Avail  []byte // bytes received from the client and not yet consumed, at entry
-	Data   []byte // bytes this handler read
-	Err    string
-	Remote string
-	Local  string
+	Kind       string // "take", "term", "mark", "fallback", "match"
+	ID         string
+	Avail      []byte // bytes received from the client and not yet consumed, at entry
+	Data       []byte // bytes this handler read
+	Err        string
+	Remote     string
+	Local      string
 	ReplRemote string
 	ReplLocal  string
-	At     time.Time
-	EndAt  time.Time
+	At         time.Time
+	EndAt      time.Time
 }
 
 type Trace struct {
-	mu     sync.Mutex
-	Events []Event
-	Done   chan struct{} // closed by terminal recorders when they finished reading
+	mu       sync.Mutex
+	Events   []Event
+	Done     chan struct{} // closed by terminal recorders when they finished reading
 	doneOnce sync.Once
 	// TermLimit bounds how much a terminal recorder reads (0 = until EOF/error).
 	TermLimit int
@@ -85,7 +87,7 @@ var registry sync.Map // remote addr string -> *Trace
 // Register binds a trace to connections arriving from the given remote
 // address (for paths where the harness does not build the Connection itself).
 func Register(remote string, t *Trace) { registry.Store(remote, t) }
-func Unregister(remote string)        { registry.Delete(remote) }
+func Unregister(remote string)         { registry.Delete(remote) }
 
 // Bind attaches a trace to a connection built by the harness.
 func Bind(cx *layer4.Connection, t *Trace) { cx.SetVar(traceVar, t) }
@@ -245,7 +247,25 @@ func (m *ErrMatcher) Match(cx *layer4.Connection) (bool, error) {
 type Take struct {
 	ID string `json:"id,omitempty"`
 	K  int    `json:"k,omitempty"`
+	// Wrap: hands a new Connection on to the next handler, as the tls and proxy_protocol handlers do: one that reads
+	// through the old one and reports WrapAddr(ID) as its remote address.
+	Wrap bool `json:"wrap,omitempty"`
 }
+
+// WrapAddr is the remote address that the connection handed on by the wrapping Take handler id reports.
+func WrapAddr(id string) net.Addr {
+	h := fnv.New32a()
+	h.Write([]byte(id))
+	v := h.Sum32()
+	return &net.TCPAddr{IP: net.IPv4(198, 51, 100, byte(v%250+1)), Port: 1024 + int(v>>8)%60000}
+}
+
+type renamedConn struct {
+	net.Conn
+	remote net.Addr
+}
+
+func (c *renamedConn) RemoteAddr() net.Addr { return c.remote }
 
 func (*Take) CaddyModule() caddy.ModuleInfo {
 	return caddy.ModuleInfo{ID: "layer4.handlers.verif_take", New: func() caddy.Module { return new(Take) }}
@@ -263,6 +283,9 @@ func (h *Take) Handle(cx *layer4.Connection, next layer4.Handler) error {
 	ev.EndAt = time.Now()
 	if tr != nil {
 		tr.add(ev)
+	}
+	if h.Wrap {
+		cx = cx.Wrap(&renamedConn{Conn: cx, remote: WrapAddr(h.ID)})
 	}
 	return next.Handle(cx)
 }
